@@ -102,5 +102,8 @@ def builder_check(prop, tier, seed, replay, mask, suites, model=None, assumption
         cov.update({"states": mc["states"], "transitions": mc["transitions"], "model": {"module": "spec/MC_Builder.tla", "configs": list(model[:2]), "depth": mc["depth"], "edges_emitted": mc["emitted_edges"], "edge_sample_rate": model[2]}})
     else:
         cov.update({"states": total + 1, "transitions": total, "states_note": "states of the trace specification BuilderTrace (one per validated call)"})
+    if tier == "thorough" and prop == "C13":
+        # unbounded argument for the id counter (any history length); extra evidence
+        cov["apalache_inductive_invariant"] = apalache_check("BuilderIds.tla")
     write_evidence(prop, tier, seed, cov, list(assumptions), time.time() - t0, len(rep.new))
     return rc
